@@ -54,6 +54,7 @@ def shards(tier, seed):
                 out.append({'fmt': fmt, 'variants': list(vs), 'tier': tier, 'seed': seed})
     # simplest first within a format is kept; interleave formats so that a cap cuts evenly
     out.sort(key=lambda d: (len(d['variants']), C01_FORMATS.index(d['fmt']), d['variants']))
+    out = [{'part': 'open', 'fmt': fmt, 'variants': [], 'tier': tier, 'seed': seed} for fmt in OPEN_SUFFIX] + out
     return out
 
 
@@ -172,7 +173,85 @@ def schedules(size, tier, b):
     return out
 
 
+OPEN_SUFFIX = {'bed3': '.bed', 'bedgraph': '.bdg', 'narrowpeak': '.narrowPeak', 'vcf': '.vcf', 'vcf_header': '.vcf', 'sam': '.sam',
+               'gtf': '.gtf', 'fasta_wrapped': '.fa', 'fastq': '.fq'}
+
+
+def run_open_shard(desc, deadline):
+    """cross-section through bnp.open(path) on real scratch files: suffix dispatch, gzip detection by name"""
+    import gzip
+    import os
+    import shutil
+    import tempfile
+    import bionumpy as bnp
+    res = Result()
+    fmt = desc['fmt']
+    f = FORMATS[fmt]
+    fields = list(f.fields)
+    scratch = tempfile.mkdtemp(dir='/dev/shm', prefix='c01_')
+    try:
+        for variants in ([0, 1, 2], [1, 0], [2]):
+            for eol in ('LF', 'CRLF'):
+                for fn in (True, False):
+                    _, recs, data = build(fmt, variants, eol, fn)
+                    for gz in (False, True):
+                        path = os.path.join(scratch, 'f' + OPEN_SUFFIX[fmt] + ('.gz' if gz else ''))
+                        with (gzip.open(path, 'wb') if gz else open(path, 'wb')) as fh:
+                            fh.write(data)
+                        for lazy in (None, False):
+                            if deadline.expired():
+                                res.capped = True
+                                return res
+                            try:
+                                whole = observe.table_rows(bnp.open(path, lazy=lazy).read(), fields)
+                            except observe.ObserverError:
+                                raise
+                            except Exception as e:
+                                res.raising += 1
+                                res.outcome('whole-read-raises:' + exc_name(e))
+                                continue
+                            completed = 0
+                            for k in range(1, len(data) + 3):
+                                res.evaluations += 1
+                                res.states += 1
+                                res.planned += 1
+                                res.traces += 1
+                                case = {'fmt': fmt, 'variants': variants, 'eol': eol, 'final_newline': fn, 'gz': gz,
+                                        'lazy': lazy, 'sched': ['open', k], 'data_b64': base64.b64encode(data).decode()}
+                                chunks = []
+                                try:
+                                    for c in bnp.open(path, lazy=lazy).read_chunks(k):
+                                        chunks.append(observe.table_rows(c, fields))
+                                    status = ('ok', [])
+                                except observe.ObserverError:
+                                    raise
+                                except Exception as e:
+                                    status = ('raises', exc_name(e), e)
+                                res.transitions += len(chunks) + 1
+                                verdict = judge(whole, status, chunks)
+                                if status[0] == 'ok':
+                                    completed += 1
+                                    if len(chunks) >= 2:
+                                        res.nontrivial += 1
+                                    res.outcome('open-ok:%d-chunks' % min(len(chunks), 9))
+                                else:
+                                    res.raising += 1
+                                    res.outcome('open-raises:' + status[1])
+                                if verdict is not None:
+                                    res.fail(verdict[0], case, {'format': fmt, 'final_newline': fn, 'gz': gz, 'via': 'bnp.open'},
+                                             expected=verdict[1], observed=verdict[2])
+                            if completed == 0:
+                                res.fail('no-chunk-size-completes', dict(case, sched=['open', 'all']),
+                                         {'format': fmt, 'final_newline': fn, 'gz': gz, 'via': 'bnp.open'},
+                                         expected='some k completes', observed='every k raised')
+    finally:
+        shutil.rmtree(scratch, ignore_errors=True)
+    return res
+
+
 def run_shard(desc, deadline):
+    if desc.get('part') == 'open':
+        return run_open_shard(desc, deadline)
     res = Result()
     b = bounds(desc['tier'], desc.get('seed', 0))
     for ci, (eol, fn, gz, lazy) in enumerate(CONFIGS):
@@ -189,6 +268,13 @@ def run_shard(desc, deadline):
 
 def replay_case(case):
     res = Result()
+    if case['sched'][0] == 'open':
+        from engine.result import Deadline
+        import time
+        full = run_open_shard({'part': 'open', 'fmt': case['fmt']}, Deadline(time.time() + 900))
+        return [{'kind': g['kind'], 'features': g['features'], 'observed': g['exemplars'][0]['observed'],
+                 'expected': g['exemplars'][0]['expected'], 'traceback': g['exemplars'][0]['traceback']}
+                for g in full.fail_groups.values()]
     scheds = [tuple(case['sched'])]
     if case['sched'] == ['all']:
         f, recs, data = build(case['fmt'], case['variants'], case['eol'], case['final_newline'])
